@@ -209,15 +209,16 @@ Definition ryu_scale (m : positive) (e : Z) : Z * Z * Z * Z * Z :=
    the finest scale (c0: central is exactly c; cup: central is closer to c+1), trim as many
    digits as possible and round the central value at that scale, staying inside [l, u].
    Returns (C, trimmed): the chosen decimal is C * 10^trimmed at the finest scale. *)
-Definition ryu_select (l c u : Z) (c0 cup : bool) : Z * Z :=
-  let '(c, u', c0', cnext, trimmed) := ryu_trim 40 l c u c0 0 0 in
+Definition ryu_select (fuel : nat) (l c u : Z) (c0 cup : bool) : Z * Z :=
+  let '(c, u', c0', cnext, trimmed) := ryu_trim fuel l c u c0 0 0 in
   let cup' := if 0 <? trimmed
               then (5 <? cnext) || ((cnext =? 5) && (negb c0' || Z.odd c))
               else cup in
   (if (c <? u') && cup' then c + 1 else c, trimmed).
 
-(* |x| = m * 2^e  |->  (C, K) with shortest C (no trailing zero) and |x| ~ C * 10^K *)
-Definition shortest_core (m : positive) (e : Z) : Z * Z :=
+(* |x| = m * 2^e  |->  (C, K) with shortest C (no trailing zero) and |x| ~ C * 10^K.
+   [fuel] bounds the number of trimmed digits (at most 20 are ever trimmed). *)
+Definition shortest_core_fuel (fuel : nat) (m : positive) (e : Z) : Z * Z :=
   let '(Xl, Xc, Xu, B, q) := ryu_scale m e in
   let '(ql, rl) := fast_div_eucl Xl B in
   let '(qc, rc) := fast_div_eucl Xc B in
@@ -228,9 +229,11 @@ Definition shortest_core (m : positive) (e : Z) : Z * Z :=
   let u := if (ru =? 0) && negb incl then qu - 1 else qu in
   let c0 := rc =? 0 in
   let cup := match 2 * rc ?= B with Gt => true | Eq => Z.odd qc | Lt => false end in
-  let '(cf, trimmed) := ryu_select l qc u c0 cup in
-  let '(cs, z) := strip10 40 cf 0 in
+  let '(cf, trimmed) := ryu_select fuel l qc u c0 cup in
+  let '(cs, z) := strip10 fuel cf 0 in
   (cs, z + trimmed - q).
+
+Definition shortest_core : positive -> Z -> Z * Z := shortest_core_fuel 40.
 
 Fixpoint int_digits (fuel : nat) (z base : Z) (acc : string) : string :=
   match fuel with
